@@ -38,15 +38,23 @@ func (t *TaskExecutor[T]) ExecuteAt(identifier T, callback func(), executionTime
 
 	if queuedElement, queuedElementExists := t.queuedElements.Get(identifier); queuedElementExists {
 		queuedElement.Cancel()
+		t.queuedElements.Delete(identifier)
 	}
 
-	scheduledTask := t.Executor.ExecuteAt(func() {
-		callback()
-
+	var scheduledTask *ScheduledTask
+	scheduledTask = t.Executor.ExecuteAt(func() {
+		// A task is pending until it starts: remove our own entry (and only our own) before running the callback.
+		// If the entry is gone or belongs to a newer task, this task was canceled or replaced in the meantime.
 		t.queuedElementsMutex.Lock()
-		defer t.queuedElementsMutex.Unlock()
+		if queuedElement, queuedElementExists := t.queuedElements.Get(identifier); !queuedElementExists || queuedElement != scheduledTask {
+			t.queuedElementsMutex.Unlock()
 
+			return
+		}
 		t.queuedElements.Delete(identifier)
+		t.queuedElementsMutex.Unlock()
+
+		callback()
 	}, executionTime)
 
 	if scheduledTask != nil {
